@@ -211,6 +211,9 @@ pub enum Chunk {
     Fixed(usize),
     /// every call transfers a drawn amount in 1..=min(k, possible); draw 0 = the most possible
     Random(usize),
+    /// a scripted partition of a stream of at most 64 bytes: bit i set = some read ends exactly
+    /// at offset i+1 (used to enumerate *all* partitions of a tiny file)
+    Mask(u64),
 }
 
 impl Chunk {
@@ -218,6 +221,7 @@ impl Chunk {
         match self {
             Chunk::Full => "full".into(),
             Chunk::Fixed(k) => format!("fixed{}", k),
+            Chunk::Mask(m) => format!("partition-mask {:#x}", m),
             Chunk::Random(k) => {
                 if *k == usize::MAX {
                     "random".into()
@@ -227,9 +231,21 @@ impl Chunk {
             }
         }
     }
-    fn decide(&self, w: &World, possible: usize) -> usize {
+    fn decide(&self, w: &World, possible: usize, pos: usize) -> usize {
         debug_assert!(possible >= 1);
         match *self {
+            Chunk::Mask(m) => {
+                // next scripted boundary strictly after `pos`
+                let mut b = pos + 1;
+                while b < 64 && (m >> (b - 1)) & 1 == 0 {
+                    b += 1;
+                }
+                if b >= 64 {
+                    possible
+                } else {
+                    possible.min(b - pos)
+                }
+            }
             Chunk::Full => possible,
             Chunk::Fixed(k) => possible.min(k),
             Chunk::Random(k) => {
@@ -366,7 +382,7 @@ impl Read for SimRead {
             return Err(e);
         }
         let possible = buf.len().min(rem);
-        let n = self.cfg.chunk.decide(&self.w, possible);
+        let n = self.cfg.chunk.decide(&self.w, possible, self.pos);
         buf[..n].copy_from_slice(&self.data[self.pos..self.pos + n]);
         if n < possible {
             self.w.fired("short_read");
@@ -420,7 +436,7 @@ impl BufRead for SimBufRead {
                 self.w.event(self.name, "fill_buf", 0, code, self.pos as u64);
                 return Err(e);
             }
-            let n = self.cfg.chunk.decide(&self.w, rem);
+            let n = self.cfg.chunk.decide(&self.w, rem, self.pos);
             if n < rem {
                 self.w.fired("short_fill");
             }
@@ -502,7 +518,7 @@ impl Read for SimSeekRead {
             return Err(e);
         }
         let possible = buf.len().min(rem);
-        let n = cfg.chunk.decide(&self.w, possible);
+        let n = cfg.chunk.decide(&self.w, possible, self.pos as usize);
         let p = self.pos as usize;
         buf[..n].copy_from_slice(&self.data[p..p + n]);
         if n < possible {
@@ -581,7 +597,7 @@ impl Write for SimWrite {
                 .event(self.name, "write", buf.len() as u64, code, pos);
             return Err(e);
         }
-        let n = self.cfg.chunk.decide(&self.w, buf.len());
+        let n = self.cfg.chunk.decide(&self.w, buf.len(), pos as usize);
         if n < buf.len() {
             self.w.fired("short_write");
         }
